@@ -732,7 +732,7 @@ void TasgridWrapper::refineGrid(){
     auto llimits = readLimits();
     TypeCommand effective_command = command;
     if (command == command_refine){
-        if (grid.isGlobal() || grid.isSequence()){
+        if (grid.isGlobal() || grid.isSequence() || grid.isFourier()){
             effective_command = command_refine_aniso;
         }else{
             effective_command = command_refine_surp;
